@@ -21,8 +21,8 @@ pub struct ClaimsCase {
 fn values_for(which: &str) -> Vec<(Value, Form)> {
     let all = value_alphabet();
     if which == "quick" {
-        // Unicode string, "", -1, null, nested array, struct, object with one member named like the key
-        [0usize, 1, 3, 5, 9, 11, 15].iter().map(|i| all[*i].clone()).collect()
+        // Unicode string, "", -1, null, nested array, struct, f32, object with one member named like the key
+        [0usize, 1, 3, 5, 9, 11, 15, 16].iter().map(|i| all[*i].clone()).collect()
     } else {
         all
     }
@@ -154,7 +154,7 @@ pub fn run(tier: &str) -> i32 {
     all.impl_calls = all.executions * 2;
     all.controls_ok = *all.hist.get("sequence:conforms").unwrap_or(&0);
     let extra = json!({
-        "space": "reachable states of the GenericBuilder reference model (claim key -> last value, absent after remove) over custom keys with quotes/newline/non-BMP/Cyrillic/blank, a 17-element JSON value alphabet (Unicode string, empty, ints incl. u64::MAX, 1.5, bool, null, arrays, depth-5 object, native struct/Option/map), 3 constructor forms, remove_claim, and the 7 typed registered claims; plus unmerged sequences",
+        "space": "reachable states of the GenericBuilder reference model (claim key -> last value, absent after remove) over custom keys with quotes/newline/non-BMP/Cyrillic/blank, an 18-element JSON value alphabet (Unicode string, empty, ints incl. u64::MAX, 1.5, bool, null, arrays, depth-5 object, native struct/Option/map/f32, an object whose single member is named like its claim key), 3 constructor forms, remove_claim, and the 7 typed registered claims; plus unmerged sequences",
         "model_runs": model_runs,
         "unmerged_sequence_depth": depth,
         "unmerged_sequences": seq_exec,
